@@ -105,6 +105,8 @@ class NodeKit:
                 return SElem(z3.Int(it.fresh("pos")), "pos")
             if name == "info":
                 return ""
+            if name == "name":      # the name of a function value (any text)
+                return it.fresh_str("funcname")
             if name in ("asBreak", "asContinue", "asReturn"):
                 return Builtin("absvalue." + name, lambda it_, a, kw, n: obj)
             it.unsupported(f"attribute {name} of an abstract value", node)
